@@ -18,7 +18,7 @@ from .sarr import SArr, assemble, concatenate_nested
 def _is_key(x, dsk):
     if isinstance(x, str):
         return x in dsk
-    if isinstance(x, tuple) and x and isinstance(x[0], str) and all(type(i) in (int, str) for i in x[1:]):
+    if isinstance(x, tuple) and x and isinstance(x[0], str) and all(type(i) in (int, str, float) for i in x[1:]):
         return x in dsk
     return False
 
@@ -174,7 +174,18 @@ def _full_like(a, fill_value, dtype=None, order="K", subok=True, shape=None):
     return SArr(tuple(shape), lambda idx: c, None, None)
 
 
-KERNELS = dict(getitem=_getitem, getter=_getter, getter_nofancy=_getter, getter_inline=_getter,
+def _concatenate_shaped(arrays, shape):
+    """dask.array.core.concatenate_shaped: a flat list of blocks arranged on a grid of `shape`, then concatenate3"""
+    def reshapelist(shape, seq):
+        if len(shape) == 1:
+            return list(seq)
+        n = int(len(seq) / shape[0])
+        return [reshapelist(shape[1:], seq[i * n:(i + 1) * n]) for i in range(shape[0])]
+
+    return concatenate_nested(reshapelist(tuple(shape), list(arrays)))
+
+
+KERNELS = dict(concatenate_shaped=_concatenate_shaped, getitem=_getitem, getter=_getter, getter_nofancy=_getter, getter_inline=_getter,
                concatenate3=concatenate_nested, full_like=_full_like)
 SAFE_NAMES = {"add", "sub", "mul", "neg", "getitem", "transpose", "identity"}
 
